@@ -69,6 +69,8 @@ def run(rep, tier, seed, replay):
     for c, i, m in zip(cases, impl, model):
         payload = dict(pl=c["pl"], ops=c["ops"], impl=i[:1500], model=m[:1500])
         f = dict(x.split("=", 1) for x in i.split(" "))
+        if f.get("notes", "-") == "NOT-RUN":
+            continue
         if f.get("notes", "-") != "-":
             rep.violation("the relay blocked the caller or its sender stopped (%s)" % f["notes"], payload); continue
         dg = [] if f["sent"] == "-" else [vf.unhex(x) for x in f["sent"].split(",")]
